@@ -609,30 +609,28 @@ def natural_align_of(op):
 def instantiation_family(seed, quick):
     out = []
     rng = random.Random(seed + 606)
-    hostf = Import('env', 'note', 'func', ([I32], []))
     combos = []
     for memk in ('none', 'def', 'imp'):
         for tabk in ('none', 'def', 'imp'):
             for startk in (False, True):
                 for ninst in (1, 2):
                     combos.append((memk, tabk, startk, ninst))
-    for ci, (memk, tabk, startk, ninst) in enumerate(combos):
-        if quick and ci % 2 != (seed % 2) and not (memk == 'imp' and startk):
-            continue
+    plain = dict(mod='env', note='note', mem='mem', tab='tab', gi='gi', gj='gj', bump='bump', peek='peek', poke='poke', setj='setj', memory='memory')
+
+    def build(ci, memk, tabk, startk, ninst, N, label):
         variant = ci % 3
+        hostf = Import(N['mod'], N['note'], 'func', ([I32], []))
         imports = [hostf]
         if memk == 'imp':
-            imports.append(Import('env', 'mem', 'memory', (1, 2)))
+            imports.append(Import(N['mod'], N['mem'], 'memory', (1, 2)))
         if tabk == 'imp':
-            imports.append(Import('env', 'tab', 'table', (5, 6)))
-        imports.append(Import('env', 'gi', 'global', (I32, False)))
-        imports.append(Import('env', 'gj', 'global', (I64, True)))
+            imports.append(Import(N['mod'], N['tab'], 'table', (5, 6)))
+        imports.append(Import(N['mod'], N['gi'], 'global', (I32, False)))
+        imports.append(Import(N['mod'], N['gj'], 'global', (I64, True)))
         # globals: indices 0,1 imported; defined from 2
         globs = [Global(I32, True, ('i32.const', 7 + ci)), Global(I32, False, ('global.get', 0)),
                  Global(I64, True, ('i64.const', 0x8000000000000000 + ci)), Global(F32, False, ('f32.const', 0x7FA00000)),
                  Global(F64, True, ('f64.const', 0xFFF0000000000001))][:2 + variant + 1]
-        has_cnt = True  # global 2 (i32 mutable) is the call/start counter
-        funcs = []
         # function 1: start (increments g2, notes g2)
         startf = Func([], [], [], [('global.get', 2), ('i32.const', 1), ('i32.add',), ('global.set', 2), ('global.get', 2), ('call', 0)])
         # function 2: bump(x): g2 += x ; returns g2
@@ -646,9 +644,9 @@ def instantiation_family(seed, quick):
             poke = Func([I32, I32], [], [], [('local.get', 1), ('global.set', 2)])
         setj = Func([I64], [], [], [('local.get', 0), ('global.set', 1)])
         funcs = [startf, bump, peek, poke, setj]
-        exports = [('bump', 'func', 2), ('peek', 'func', 3), ('poke', 'func', 4), ('setj', 'func', 5)]
+        exports = [(N['bump'], 'func', 2), (N['peek'], 'func', 3), (N['poke'], 'func', 4), (N['setj'], 'func', 5)]
         if memk != 'none':
-            exports.append(('memory', 'memory', 0))
+            exports.append((N['memory'], 'memory', 0))
         datas = []
         if memk != 'none':
             datas = [Data(('i32.const', 2), b'\x11\x22\x33\x44'), Data(('global.get', 0), b'\xA1\xA2\xA3'),
@@ -665,11 +663,25 @@ def instantiation_family(seed, quick):
         m = Module(imports=imports, funcs=funcs, tables=tables, mems=[(1, 2)] if memk == 'def' else [], globals=globs,
                    exports=exports, start=1 if startk else None, elems=elems, datas=datas, datacount=any(d.passive for d in datas))
         if ninst == 1:
-            script = [{'call': 'bump'}, {'call': 'poke'}, {'call': 'peek'}]
+            script = [{'call': N['bump']}, {'call': N['poke']}, {'call': N['peek']}]
         else:
-            script = [{'call': 'bump', 'inst': 0}, {'call': 'poke', 'inst': 1}, {'call': 'setj', 'inst': 0}, {'call': 'peek', 'inst': 0}, {'call': 'bump', 'inst': 1}]
+            script = [{'call': N['bump'], 'inst': 0}, {'call': N['poke'], 'inst': 1}, {'call': N['setj'], 'inst': 0}, {'call': N['peek'], 'inst': 0}, {'call': N['bump'], 'inst': 1}]
         hk = {'n_inst': ninst, 'tab_slots': 5, 'max_host_calls': 4}
-        out.append(('inst_mem%s_tab%s_start%d_n%d_v%d' % (memk, tabk, int(startk), ninst, variant), m, script, hk))
+        out.append((label, m, script, hk))
+
+    for ci, (memk, tabk, startk, ninst) in enumerate(combos):
+        if quick and ci % 2 != (seed % 2) and not (memk == 'imp' and startk):
+            continue
+        build(ci, memk, tabk, startk, ninst, plain, 'inst_mem%s_tab%s_start%d_n%d_v%d' % (memk, tabk, int(startk), ninst, ci % 3))
+    # import / export names are arbitrary UTF-8 strings: quotes, backslashes, bytes >= 0x80 followed by hex digits, control
+    # characters, '?' sequences that form trigraphs, '%'; the resolver must be asked for exactly these names
+    exotic = [
+        dict(plain, mem='m"em', tab='t\\ab', gi='d\u00e9calage', gj='g?j??/x'),
+        dict(plain, mod='en"v\\', gi='a\\n', gj='caf\u00e9', note='no"te', mem='mem%s%n'),
+        dict(plain, gi='\x01\x7f', gj='a\tb\nc', bump='bu"m\\p', peek='p\u00e9ek', memory='me"m\\0'),
+    ]
+    for k, N in enumerate(exotic):
+        build(16 + k, 'imp', 'imp', True, 1, N, 'inst_names_%d' % k)
     return out
 
 
